@@ -59,7 +59,9 @@ func NewSlidingWindowMetric(sampleCount, intervalInMs uint32, real *BucketLeapAr
 func (m *SlidingWindowMetric) getBucketStartRange(timeMs uint64) (start, end uint64) {
 	curBucketStartTime := calculateStartTime(timeMs, m.real.BucketLengthInMs())
 	end = curBucketStartTime
-	start = end - uint64(m.intervalInMs) + uint64(m.real.BucketLengthInMs())
+	if span := uint64(m.intervalInMs) - uint64(m.real.BucketLengthInMs()); end >= span {
+		start = end - span
+	}
 	return
 }
 
